@@ -23,6 +23,12 @@ RULE = ("stateful histories producing plates with non-uniform wells; every opera
 ASSUMPTIONS = ["oracle = the library's own Container operations (differential at another granularity)",
                "overlapping same-plate regions have no well-by-well reading: excluded here, C01 owns them",
                "instruction text of wells is not compared here (C19)"]
+def shard_config(shard, tier):
+    """one of eight shards runs with solids and enzymes that take no volume (documented setting inf): wells can then
+    hold material at zero volume"""
+    return {5: {'default_solid_density': float('inf'), 'default_enzyme_density': float('inf')}}.get(shard % 8)
+
+
 REQUIRED_CLASSES = {'quick': ['kind:transfer', 'kind:remove', 'kind:fill_to', 'form:1toN', 'form:Nto1', 'recipe'],
                     'thorough': ['kind:transfer', 'kind:remove', 'kind:fill_to', 'form:1toN', 'form:Nto1',
                                  'form:NtoN', 'form:invalid', 'recipe']}
